@@ -137,8 +137,22 @@ func (c *wideCircuit) Define(api frontend.API) error {
 		i    int
 	}
 	var pend *pending
+	// one table shared by lookups spread through the wide level (different task chunks resolve
+	// and read the same entries concurrently); its last entry is a long linear expression, so
+	// resolving the entries takes a while
+	shared := logderivlookup.New(api)
+	shared.Insert(c.X[11])
+	long := frontend.Variable(0)
+	for i := 0; i < 60; i++ {
+		long = api.Add(long, api.Mul(c.X[i], i+1))
+	}
+	shared.Insert(long)
+	var sharedQ []frontend.Variable
 	for i := range c.X {
 		lvl[i] = api.Mul(c.X[i], c.X[(i+1)%len(c.X)])
+		if i%20 == 9 {
+			sharedQ = append(sharedQ, shared.Lookup(c.B[100+i/20])[0])
+		}
 		if i%20 == 2 { // the producer of a table entry ...
 			pend = &pending{k: i / 20, prod: api.Mul(c.X[(i+3)%len(c.X)], c.X[(i+4)%len(c.X)]), i: i}
 		}
@@ -165,6 +179,9 @@ func (c *wideCircuit) Define(api frontend.API) error {
 	}
 	for k, q := range lookups {
 		acc = api.Add(acc, api.Mul(q, k+2))
+	}
+	for k, q := range sharedQ {
+		acc = api.Add(acc, api.Mul(q, k+11))
 	}
 	api.AssertIsEqual(c.Out, acc)
 	return nil
@@ -209,6 +226,21 @@ func wideWitnesses(rng *rand.Rand, p *big.Int, n int) []Wit {
 				}
 				acc.Add(acc, new(big.Int).Mul(q, big.NewInt(int64(kk+2))))
 				kk++
+			}
+		}
+		long := new(big.Int)
+		for i := 0; i < 60; i++ {
+			long.Add(long, new(big.Int).Mul(x[i], big.NewInt(int64(i+1))))
+		}
+		sk := 0
+		for i := 0; i < n; i++ {
+			if i%20 == 9 {
+				q := x[11]
+				if bits[100+i/20] == 1 {
+					q = long
+				}
+				acc.Add(acc, new(big.Int).Mul(q, big.NewInt(int64(sk+11))))
+				sk++
 			}
 		}
 		acc.Mod(acc, p)
